@@ -3,13 +3,17 @@ import OV.Model.C05Unit
 import OV.Model.C05Shape
 import OV.Model.C05Linalg
 import OV.Model.C05Table
+import OV.Model.C05More
 import OV.Lemmas.C05
 import OV.Lemmas.C05Shape
 import OV.Lemmas.C05Algebra
+import OV.Lemmas.C05Matmul
 import Mathlib.Order.MinMax
 import Mathlib.Tactic.Order
 import Mathlib.Tactic.SplitIfs
 import Mathlib.Tactic.Ring
+import Mathlib.Tactic.Linarith
+import Mathlib.Tactic.NormNum
 import Mathlib.Tactic.FieldSimp
 import Mathlib.Algebra.Order.Field.Basic
 /-!
@@ -176,19 +180,20 @@ theorem min_max_fire_bounds (p : MinMax Int) (hk : p.kind = .minMax) (l u : Int)
   · split at hfire
     · exact absurd hfire (by simp)
     · split at hfire
-      · rename_i l' u' _ _
-        split at hfire
-        · exact absurd hfire (by simp)
-        · rename_i hlu
-          simp only [Outcome.fire.injEq, MMRepl.clip.injEq] at hfire
-          obtain ⟨h1, h2⟩ := hfire
-          subst h1; subst h2; exact hlu
       · exact absurd hfire (by simp)
+      · split at hfire
+        · rename_i l' u' _ _
+          split at hfire
+          · exact absurd hfire (by simp)
+          · rename_i hlu
+            simp only [Outcome.fire.injEq, MMRepl.clip.injEq] at hfire
+            obtain ⟨h1, h2⟩ := hfire
+            subst h1; subst h2; exact hlu
+        · exact absurd hfire (by simp)
 
 omit [LinearOrder α] in
-/-- Rank of the result: the Clip emitted by `max_min`/`min_max` keeps `x`'s rank, the original keeps the
-broadcast rank; they agree when no constant has a rank above `x`'s (`d4 = false`). -/
-theorem clip_fusion_rank_partial (p : MinMax α) (rx : Nat) (hD4 : p.consts.any (fun c => rx < c.rank) = false) :
+/-- Rank of the result when no constant outranks `x`: the original keeps the broadcast rank = `x`'s rank. -/
+theorem clip_fusion_rank_of_no_outrank (p : MinMax α) (rx : Nat) (hD4 : p.consts.any (fun c => rx < c.rank) = false) :
     p.lhsRank rx = rx := by
   unfold MinMax.lhsRank
   have : ∀ (l : List (MMConst α)) (r : Nat), (l.any (fun c => r < c.rank) = false) →
@@ -203,12 +208,48 @@ theorem clip_fusion_rank_partial (p : MinMax α) (rx : Nat) (hD4 : p.consts.any 
       exact ih r h.2
   exact this _ _ hD4
 
-/-- Finding D4: `Min(Max(x:[3], [[0]]), [[1]])` has rank 2, `Clip(x, 0, 1)` rank 1 — and the rule fires. -/
-theorem clip_fusion_rank_refuted :
-    ¬ (∀ (p : MinMax Int) (rx : Nat) (l u : Int), p.run = .fire (.clip l u) → p.lhsRank rx = rx) := by
-  intro h
-  have := h { kind := .maxMin, first := [.const 2 [0]], second := [.const 2 [1]] } 1 0 1 (by decide)
-  revert this; decide
+/-- **`max_min` / `min_max` keep the rank** (after commit 1d299da): whenever a Clip fusion fires on an input of known rank
+`rx`, no constant outranks `x`, so `Min/Max` broadcasting produced rank `rx` — the rank of the emitted `Clip(x, lo, hi)`. -/
+theorem clip_fusion_rank_sound (p : MinMax Int) (rx : Nat) (l u : Int) (hk : p.kind.needScalars = true)
+    (hx : p.xRank = some rx) (hfire : p.run = .fire (.clip l u)) : p.lhsRank rx = rx := by
+  apply clip_fusion_rank_of_no_outrank
+  unfold MinMax.run at hfire
+  split at hfire
+  · exact absurd hfire (by simp)
+  · simp only at hfire
+    split at hfire
+    · exact absurd hfire (by simp)
+    · rename_i hbad
+      simp only [Bool.not_eq_true] at hbad
+      rw [List.any_eq_false] at hbad ⊢
+      intro c hc
+      have := hbad c hc
+      simp only [hk, Bool.true_and, Bool.or_eq_true, Bool.not_eq_true', not_or, Bool.not_eq_false] at this
+      have hr := this.2.2
+      unfold MinMax.rankBad at hr
+      rw [hx] at hr
+      simp only [Bool.and_eq_true, decide_eq_true_eq, not_and, Bool.not_eq_true, decide_eq_false_iff_not] at hr ⊢
+      intro hlt
+      exact hr (by omega) hlt
+
+/-- Documentation of finding D4 (fixed): `Min(Max(x:[3], [[0]]), [[1]])` has rank 2 while `Clip(x, 0, 1)` would have rank 1;
+the rule now refuses (also when the shape of `x` is unknown). -/
+theorem clip_fusion_rank_prefix_refuted :
+    MinMax.lhsRank ({ kind := .maxMin, first := [.const 2 [0]], second := [.const 2 [1]] } : MinMax Int) 1 = 2 ∧
+    MinMax.run ({ kind := .maxMin, first := [.const 2 [0]], second := [.const 2 [1]], xRank := some 1 } : MinMax Int) = .nofire ∧
+    MinMax.run ({ kind := .maxMin, first := [.const 1 [0]], second := [.const 0 [1]], xRank := none } : MinMax Int) = .nofire ∧
+    MinMax.run ({ kind := .maxMin, first := [.const 1 [0]], second := [.const 0 [1]], xRank := some 1 } : MinMax Int) = .fire (.clip 0 1) := by
+  decide
+
+/-- Commit 625745e (finding C05-N2, fixed): below opset 11 none of the Clip-producing rules fires. -/
+theorem clip_rules_need_opset_11 :
+    (∀ p : ClipClip Int, p.opsetGe11 = false → p.run = .nofire) ∧
+    (∀ p : ReluClip Int, p.opsetGe11 = false → p.run 0 = .nofire ∧ p.runReluClip 0 = .nofire) ∧
+    (∀ p : MinMax Int, p.opsetGe11 = false → p.kind.needScalars = true → p.run = .nofire) := by
+  refine ⟨?_, ?_, ?_⟩
+  · intro p h; unfold ClipClip.run; simp [h]
+  · intro p h; unfold ReluClip.run ReluClip.runReluClip; simp [h]
+  · intro p h hk; unfold MinMax.run; simp [h, hk]
 
 end Order
 
@@ -268,26 +309,38 @@ theorem unsqueeze_unsqueeze_build (v1 v2 : Nat) :
 theorem squeeze_reshape_1d_sound (n : Nat) : specReshape (specSqueezeAll [n]) [-1] false = some [n] :=
   squeeze_reshape_1d n
 
-/-- `flatten_to_reshape`, static shapes: the rule fires with the two products as target … -/
-theorem flatten_to_reshape_fires (s : List Nat) (axis : Nat) (hax : axis ≤ s.length) :
+/-- **`flatten_to_reshape`**, static shapes (after commit 02f546a): when the rule fires, no dimension is 0 … -/
+theorem flatten_to_reshape_fire_pos (s : List Nat) (axis : Int) (ns : List Int)
+    (h : flattenToReshapeRun (some (s.map Dim.known)) axis none = .fire ns) : ∀ d ∈ s, 0 < d :=
+  flatten_fire_pos s axis ns h
+
+/-- … it then emits the two products … -/
+theorem flatten_to_reshape_fires (s : List Nat) (axis : Nat) (hax : axis ≤ s.length) (hpos : ∀ d ∈ s, 0 < d) :
     flattenToReshapeRun (some (s.map Dim.known)) (axis : Int) none =
       .fire [ (prodNat (s.take axis) : Int), (prodNat (s.drop axis) : Int) ] :=
-  flatten_fires s axis hax
+  flatten_fires s axis hax hpos
 
-/-- … and that target reshapes to the Flatten result **provided no dimension is 0** (`_partial`: with a 0 the
-emitted `0` means "copy the input dim" — finding D6). -/
-theorem flatten_to_reshape_sound_partial (s : List Nat) (hpos : ∀ d ∈ s, 0 < d) (axis : Nat) (hax : axis ≤ s.length) :
-    specReshape s [ (prodNat (s.take axis) : Int), (prodNat (s.drop axis) : Int) ] false = some (specFlatten s axis) :=
-  flatten_reshape_sound s hpos axis hax
+/-- … and that target reshapes the input to exactly the Flatten result, for every rank and axis. -/
+theorem flatten_to_reshape_sound (s : List Nat) (axis : Nat) (hax : axis ≤ s.length) (ns : List Int)
+    (h : flattenToReshapeRun (some (s.map Dim.known)) (axis : Int) none = .fire ns) :
+    specReshape s ns false = some (specFlatten s axis) := by
+  have hpos := flatten_fire_pos s axis ns h
+  rw [flatten_fires s axis hax hpos] at h
+  cases h
+  exact flatten_reshape_sound s hpos axis hax
 
-/-- Finding D6 witness: `Flatten(axis=2)` of `2×0×3` → target `[0,3]`, which is not the Flatten shape `[0,3]`… it
-resolves to `[2,3]` (size mismatch → error). -/
-theorem flatten_to_reshape_full_refuted :
-    ¬ (∀ (s : List Nat) (axis : Nat), axis ≤ s.length →
-        specReshape s [ (prodNat (s.take axis) : Int), (prodNat (s.drop axis) : Int) ] false = some (specFlatten s axis)) := by
-  intro h
-  have := h [2, 0, 3] 2 (by decide)
-  revert this; decide
+/-- A statically zero-size dim refuses the rewrite (no output annotation, or one of rank ≤ 2). -/
+theorem flatten_to_reshape_zero_refused (s : List Nat) (axis : Int) (os : Option Shape) (h0 : 0 ∈ s)
+    (hos : os = none ∨ ∃ l, os = some l ∧ l.length ≤ 2) :
+    flattenToReshapeRun (some (s.map Dim.known)) axis os = .nofire :=
+  flatten_zero_refused s axis os h0 hos
+
+/-- Documentation of finding D6 (fixed): for `2×0×3`, `axis = 2` the products `[0,3]` as a Reshape target (0 = "copy")
+do not give the Flatten shape; the rule now refuses. -/
+theorem flatten_to_reshape_prefix_refuted :
+    flattenToReshapeRun (some [.known 2, .known 0, .known 3]) 2 none = .nofire ∧
+    specReshape [2, 0, 3] [0, 3] false ≠ some (specFlatten [2, 0, 3] 2) :=
+  flatten_refuted
 
 /-- `reshape_reshape` (no output annotation): whatever the intermediate shape `s1` was, if the second Reshape
 was valid and produced `t`, the fused `Reshape(x, shape', allowzero')` produces `t` from the original input —
@@ -334,16 +387,26 @@ theorem collapse_slice_sound (xs : Shape) (en ax : Int) (d : Nat)
     specSliceLen01 d en = d :=
   OV.Lemmas.C05Shape.collapse_slice_sound xs en ax d hfire hidx hmax
 
-/-- `no_op_static_scatter_nd` with `reduction = none`: scattering `updates` over the full index range
-`[[0],…,[n-1]]` of a same-shaped `data` gives `updates`, for every `n` and every row type. -/
-theorem static_scatter_sound_partial {ρ : Type} (data upd : List ρ) (h : data.length = upd.length) :
+/-- **`no_op_static_scatter_nd`** (after commit 396bc06): the rule fires only with `reduction = none` … -/
+theorem static_scatter_fires_only_reduction_none (red : Bool) (d u : Option Shape) (idx : Option (List (List Int)))
+    (h : staticScatterRun red d u idx = .fire ()) : red = true := by
+  unfold staticScatterRun at h
+  cases red
+  · simp at h
+  · rfl
+
+/-- … and then scattering `updates` over the full index range `[[0],…,[n-1]]` of a same-shaped `data` gives `updates`,
+for every `n` and every row type. -/
+theorem static_scatter_sound {ρ : Type} (data upd : List ρ) (h : data.length = upd.length) :
     specScatterRows (fun _ u => u) data (List.range upd.length) upd = upd :=
   scatter_full_range data upd h
 
-/-- Finding C05-N4: the rule does not look at `reduction`; with `add` the result is `data + updates`. -/
-theorem static_scatter_reduction_refuted :
-    staticScatterRun (some [.known 3]) (some [.known 3]) (some [[0], [1], [2]]) = .fire () ∧
-    specScatterRows (fun (a b : Int) => a + b) [1, 1, 1] [0, 1, 2] [5, 5, 5] ≠ [5, 5, 5] := by decide
+/-- Documentation of finding C05-N4 (fixed): the pre-fix check did not look at `reduction`; with `add` the result is
+`data + updates`; the rule now refuses. -/
+theorem static_scatter_prefix_refuted :
+    staticScatterRunPrefix (some [.known 3]) (some [.known 3]) (some [[0], [1], [2]]) = .fire () ∧
+    specScatterRows (fun (a b : Int) => a + b) [1, 1, 1] [0, 1, 2] [5, 5, 5] ≠ [5, 5, 5] ∧
+    staticScatterRun false (some [.known 3]) (some [.known 3]) (some [[0], [1], [2]]) = .nofire := by decide
 
 end Shape
 
@@ -535,14 +598,26 @@ theorem batchnorm_fold_sound {α : Type} [Field α] (K : Nat) (w x : Nat → α)
     rw [Finset.sum_mul]; apply Finset.sum_congr rfl; intro k _; ring
   rw [this]; ring
 
-/-- Gemm keeps its `alpha`/`beta` attributes: with `beta = 1` (hypothesis `batchNormHyp`) the fold is right for any `alpha`. -/
-theorem batchnorm_gemm_sound_partial {α : Type} [Field α] (dot b mu s beta' alpha : α) :
+/-- **`fuse_batchnorm_into_*`** (after commit 621808b): the rules fire only outside training mode and, for Gemm, with `beta = 1` … -/
+theorem batchnorm_fires_only_inference_beta_one (p : BatchNorm) (h : batchNormCheck p = true) :
+    p.gemmBetaIsOne = true ∧ p.trainingMode = false := by
+  unfold batchNormCheck batchNormHyp at h
+  simp only [Bool.and_eq_true, Bool.not_eq_true'] at h
+  exact ⟨h.1.1, h.1.2⟩
+
+/-- … and then Gemm's `alpha` (kept) and `beta = 1` make the fold right for every `alpha`. -/
+theorem batchnorm_gemm_sound {α : Type} [Field α] (dot b mu s beta' alpha : α) :
     (alpha * dot + 1 * b - mu) * s + beta' = alpha * (dot * s) + 1 * ((b - mu) * s + beta') := by ring
 
-/-- Finding C05-N6: with `beta = 1/2` the folded bias is scaled once too often. -/
-theorem batchnorm_gemm_beta_refuted :
+/-- Documentation of finding C05-N6 (fixed): with `beta = 1/2` the folded bias is scaled once too often; the pre-fix check
+passed, the rule now refuses. -/
+theorem batchnorm_gemm_prefix_refuted :
     ¬ (∀ (dot b mu s beta' alpha gb : Rat),
-        (alpha * dot + gb * b - mu) * s + beta' = alpha * (dot * s) + gb * ((b - mu) * s + beta')) := by
+        (alpha * dot + gb * b - mu) * s + beta' = alpha * (dot * s) + gb * ((b - mu) * s + beta')) ∧
+    batchNormCheckPrefix { inits := [⟨true, true, false⟩], sharedOutside := false, gemmBetaIsOne := false } = true ∧
+    batchNormCheck { inits := [⟨true, true, false⟩], sharedOutside := false, gemmBetaIsOne := false } = false ∧
+    batchNormCheck { inits := [⟨true, true, false⟩], sharedOutside := false, trainingMode := true } = false := by
+  refine ⟨?_, by decide, by decide, by decide⟩
   intro h
   have := h 0 0 1 1 0 1 (1 / 2)
   norm_num at this
@@ -604,23 +679,30 @@ theorem pad_into_conv_integer_prefix_refuted :
   have := h 5 (fun _ => 7) 1 1 0 0
   revert this; unfold ext padded ext; decide
 
-/-- `normalize_pad_format` SAME_UPPER / SAME_LOWER on one axis, **dilation 1**: the explicit pads the rule computes
-from the truthful output annotation `y = ceil(x/s)` reproduce that output length. -/
-theorem normalize_pad_same_sound_partial (upper : Bool) (x k s : Nat) (hx : 0 < x) (hk : 0 < k) (hs : 0 < s) :
-    ∃ pb pe, computeSamePads upper [x] [(x + s - 1) / s] [k] [s] = [pb, pe] ∧
-      convOutLen x k s 1 pb pe = (x + s - 1) / s := by
-  unfold computeSamePads
+/-- **`normalize_pad_format`** SAME_UPPER / SAME_LOWER on one axis (after commit 6841282: dilated kernel extent), for every
+kernel size, stride and **dilation**: the explicit pads the rule computes from the truthful output annotation
+`y = ceil(x/s)` reproduce that output length. -/
+theorem normalize_pad_same_sound (upper : Bool) (x k s d : Nat) (hx : 0 < x) (hs : 0 < s) :
+    ∃ pb pe, computeSamePads upper [x] [(x + s - 1) / s] (dilatedExtents [k] [d]) [s] = [pb, pe] ∧
+      convOutLen x k s d pb pe = (x + s - 1) / s := by
+  have hconv : ∀ pb pe, convOutLen x k s d pb pe = convOutLen x ((k - 1) * d + 1) s 1 pb pe := by
+    intro pb pe; unfold convOutLen; simp
+  unfold computeSamePads dilatedExtents
   cases upper
   · refine ⟨_, _, rfl, ?_⟩
-    apply same_len x k s hx hk hs
+    rw [hconv]
+    apply same_len x _ s hx (by omega) hs
     simp only [Bool.false_eq_true, if_false]; omega
   · refine ⟨_, _, rfl, ?_⟩
-    apply same_len x k s hx hk hs
+    rw [hconv]
+    apply same_len x _ s hx (by omega) hs
     simp only [if_true]; omega
 
-/-- Finding D16c1: with dilation 2 the same formula is wrong (`x=7,k=3,s=1`: pads `[1,1]` give length 5, not 7). -/
-theorem normalize_pad_dilation_refuted :
-    computeSamePads true [7] [7] [3] [1] = [1, 1] ∧ convOutLen 7 3 1 2 1 1 = 5 ∧ convOutLen 7 3 1 2 2 2 = 7 := by
+/-- Documentation of finding D16c1 (fixed): with the raw kernel size and dilation 2 the pads were wrong
+(`x=7,k=3,s=1`: `[1,1]` give length 5, not 7); with the dilated extent they are `[2,2]`. -/
+theorem normalize_pad_prefix_refuted :
+    computeSamePads true [7] [7] [3] [1] = [1, 1] ∧ convOutLen 7 3 1 2 1 1 = 5 ∧
+    computeSamePads true [7] [7] (dilatedExtents [3] [2]) [1] = [2, 2] ∧ convOutLen 7 3 1 2 2 2 = 7 := by
   decide
 
 /-- Expand-before-binary-op, strategy 1 (after commit 48b48d2): whenever the guard passes, the Expand target is not longer
@@ -640,6 +722,274 @@ theorem expand_removable_prefix_rank_refuted :
   decide
 
 end Linalg
+
+/-! ## Second batch: hard-swish, conv∘affine, cast∘ConstantOfShape, collapse_slice2, dynamic scatter, slice_split,
+gemm_to_matmul_add -/
+section More
+open OV.C05.More OV.C05.Unit OV.C05.Shape OV.Lemmas.C05Algebra
+
+section OrderedField
+variable {α : Type} [Field α] [LinearOrder α] [IsStrictOrderedRing α]
+
+/-- ONNX `HardSigmoid(alpha, beta)`. -/
+def hardSigmoid (a b x : α) : α := max 0 (min 1 (a * x + b))
+
+/-- `HardSigmoidFusion` with the exact constants: `Clip(x + 3, 0, 6) / 6 = HardSigmoid(1/6, 1/2)(x)` over every
+linearly ordered field. -/
+theorem hardsigmoid_identity (x : α) : min (max (x + 3) 0) 6 / 6 = hardSigmoid (1 / 6) (1 / 2) x := by
+  unfold hardSigmoid
+  have h6 : (0 : α) ≤ 6 := by norm_num
+  have e1 : (1 : α) / 6 * x + 1 / 2 = (x + 3) / 6 := by ring
+  have e2 : (1 : α) = 6 / 6 := by norm_num
+  have e3 : (0 : α) = 0 / 6 := by norm_num
+  rw [e1]
+  conv_rhs => rw [e2, e3, min_div_div_right h6, max_div_div_right h6]
+  congr 1
+  rcases le_total (x + 3) 0 with h | h <;> rcases le_total (x + 3) 6 with h' | h' <;>
+    simp [max_def, min_def] <;> split_ifs <;> linarith
+
+/-- `HardSwishFusion` (both `Mul` operand orders) and `HardSwishFusionFromHardSigmoid`:
+`Clip(x + 3, 0, 6) * x / 6 = x * HardSigmoid(1/6, 1/2)(x) = HardSwish(x)`. -/
+theorem hardswish_identity (x : α) : min (max (x + 3) 0) 6 * x / 6 = x * hardSigmoid (1 / 6) (1 / 2) x := by
+  rw [← hardsigmoid_identity]; ring
+
+end OrderedField
+
+/-- The matched pipeline on ℚ with the constants the match binds. -/
+def HardSig.lhs (cmin cmax bias div x : Rat) : Rat := min (max (x + bias) cmin) cmax / div
+
+/-- **hard-sigmoid / hard-swish fusions** (`_HardSigmoidFusionBase.check` passes and the constants are *exactly* 0, 6, 3, 6):
+the pipeline equals `HardSigmoid(1/6, 1/2)`.  `_partial`: `check` only demands `isclose(·, rel_tol=1e-4)` (finding C05-N8). -/
+theorem hardsigmoid_fusion_sound_partial (p : HardSig) (_h : p.check = true) (hex : p.exact = true) (x : Rat) :
+    HardSig.lhs 0 6 3 6 x = hardSigmoid (1 / 6) (1 / 2) x ∧
+    p.clipMin = some 0 ∧ p.clipMax = some 6 ∧ p.bias = some 3 ∧ p.divisor = some 6 := by
+  unfold HardSig.exact at hex
+  simp only [Bool.and_eq_true, beq_iff_eq] at hex
+  exact ⟨hardsigmoid_identity x, hex.1.1.1, hex.1.1.2, hex.1.2, hex.2⟩
+
+/-- Finding C05-N8: the rule fires for `bias = 3.0002` and then `Clip(0 + 3.0002, 0, 6)/6 ≠ HardSigmoid(1/6,1/2)(0) = 1/2`. -/
+theorem hardsigmoid_fusion_full_refuted :
+    (HardSig.check { clipMin := some 0, clipMax := some 6, bias := some (30002 / 10000), divisor := some 6 }) = true ∧
+    HardSig.lhs 0 6 (30002 / 10000) 6 0 ≠ hardSigmoid (1 / 6) (1 / 2) (0 : Rat) := by
+  refine ⟨by decide +kernel, ?_⟩
+  unfold HardSig.lhs hardSigmoid
+  norm_num [max_def, min_def]
+
+/-- `absR` of the model is the absolute value. -/
+theorem absR_eq (q : Rat) : absR q = |q| := by
+  unfold absR; split_ifs with hq
+  · rw [abs_of_neg hq]
+  · rw [abs_of_nonneg (not_lt.mp hq)]
+
+/-- The zero lower bound cannot be approximate: `isclose(v, 0.0, rel_tol=1e-4)` has `abs_tol = 0`. -/
+theorem hardsigmoid_clip_min_exact (v : Rat) (h : closeTo (some v) 0 = true) : v = 0 := by
+  by_contra hv
+  have hpos : 0 < |v| := abs_pos.mpr hv
+  simp only [closeTo, isclose, hv, if_false, mul_zero, zero_sub, absR_eq, abs_zero, abs_neg,
+    Bool.or_eq_true, decide_eq_true_eq] at h
+  rcases le_total 0 v with hv0 | hv0
+  · have e : |(1 : Rat) / 10000 * v| = 1 / 10000 * v := abs_of_nonneg (mul_nonneg (by norm_num) hv0)
+    rw [e, abs_of_nonneg hv0] at h
+    rw [abs_of_nonneg hv0] at hpos
+    rcases h with (h | h) | h <;> linarith
+  · have e : |(1 : Rat) / 10000 * v| = -(1 / 10000 * v) := abs_of_nonpos (mul_nonpos_of_nonneg_of_nonpos (by norm_num) hv0)
+    rw [e, abs_of_nonpos hv0] at h
+    rw [abs_of_nonpos hv0] at hpos
+    rcases h with (h | h) | h <;> linarith
+
+/-- `conv_affine_fusion`: `(Σ w·x + b)·s + o = Σ (w·s)·x + (b·s + o)` per output position, any kernel size, any commutative ring. -/
+theorem conv_affine_sound {α : Type} [CommRing α] (K : Nat) (w x : Nat → α) (b s o : α) :
+    ((∑ k ∈ Finset.range K, w k * x k) + b) * s + o = (∑ k ∈ Finset.range K, (w k * s) * x k) + (b * s + o) := by
+  have : (∑ k ∈ Finset.range K, (w k * s) * x k) = (∑ k ∈ Finset.range K, w k * x k) * s := by
+    rw [Finset.sum_mul]; apply Finset.sum_congr rfl; intro k _; ring
+  rw [this]; ring
+
+/-- `affine_conv_fusion` (Conv without padding — the pattern pins `pads = [0,0,0,0]`): `Σ w·(x·s + o) + b = Σ (w·s)·x + (b + Σ w·o)`. -/
+theorem affine_conv_sound {α : Type} [CommRing α] (K : Nat) (w x : Nat → α) (b s o : α) :
+    (∑ k ∈ Finset.range K, w k * (x k * s + o)) + b
+      = (∑ k ∈ Finset.range K, (w k * s) * x k) + (b + ∑ k ∈ Finset.range K, w k * o) := by
+  have : ∀ k, w k * (x k * s + o) = (w k * s) * x k + w k * o := by intro k; ring
+  simp only [this, Finset.sum_add_distrib]; ring
+
+/-- Both conv∘affine rules need constant `w`, `b` and one-element `scale`, `offset` (and `affine_conv` the zero-pads attribute). -/
+theorem conv_affine_guards (p : ConvAffine) (h : p.check = true) :
+    p.wConst = true ∧ p.bConst = true ∧ p.scaleSingleton = true ∧ p.offsetSingleton = true ∧ p.padsZeroAttr = true := by
+  unfold ConvAffine.check at h
+  simp only [Bool.and_eq_true] at h
+  exact ⟨h.1.1.1.1, h.1.1.1.2, h.1.1.2, h.1.2, h.2⟩
+
+/-- `cast_constant_of_shape` (+ `_without_value`): casting a constant-filled tensor elementwise equals filling with the cast
+value, for every size and every elementwise `cast`. -/
+theorem cast_constant_of_shape_sound {V W : Type} (cast : V → W) (n : Nat) (v : V) :
+    (List.replicate n v).map cast = List.replicate n (cast v) := List.map_replicate
+
+/-- `collapse_slice2`: a step-1 Slice (any start/end, negative or out of range) whose result has as many elements along
+the axis as its input is the identity along that axis. -/
+theorem collapse_slice2_sound {β : Type} (l : List β) (st en : Int)
+    (h : (specSliceStep1 l st en).length = l.length) : specSliceStep1 l st en = l := by
+  simp only [specSliceStep1] at h ⊢
+  simp only [List.length_take, List.length_drop] at h
+  generalize clampI (if st < 0 then st + ↑l.length else st) l.length = s at *
+  generalize clampI (if en < 0 then en + ↑l.length else en) l.length = e at *
+  by_cases hl : l.length = 0
+  · have : l = [] := List.length_eq_zero_iff.mp hl
+    subst this; simp
+  · have hs : s = 0 := by omega
+    subst hs
+    simp only [List.drop_zero, Nat.sub_zero] at h ⊢
+    apply List.take_of_length_le; omega
+
+/-- … and the rule only fires when every step is the constant 1 and the two annotated shapes agree. -/
+theorem collapse_slice2_guards (d o : Option Shape) (steps : Option (List Int)) (h : collapseSlice2Check d o steps = true) :
+    (∃ l, steps = some l ∧ ∀ s ∈ l, s = 1) ∧ sameShape d o = true := by
+  unfold collapseSlice2Check at h
+  match d, o, h with
+  | none, _, h => exact absurd h (by simp)
+  | some _, none, h => exact absurd h (by simp)
+  | some _, some _, h =>
+    simp only [Bool.and_eq_true] at h
+    cases steps with
+    | none => exact absurd h.1 (by simp)
+    | some l =>
+      refine ⟨⟨l, rfl, ?_⟩, h.2⟩
+      have := h.1
+      simp only [List.all_eq_true, beq_iff_eq] at this
+      exact this
+
+/-- `no_op_dynamic_scatter_nd`: when `check` passes, the updated axis' dim of `data` and the leading dim of the scattered
+tensor are the same dim … -/
+theorem dynamic_scatter_fire_same_dim (ax : Int) (ds ts : Shape)
+    (h : dynScatterRun (some ax) (some ds) (some ts) = .fire ()) :
+    ∃ d t0 rest, pyIndex ds ax = some d ∧ ts = t0 :: rest ∧ sameDim d t0 = true := by
+  simp only [dynScatterRun] at h
+  cases hp : pyIndex ds ax with
+  | none => rw [hp] at h; exact absurd h (by simp)
+  | some d =>
+    rw [hp] at h
+    cases ts with
+    | nil => exact absurd h (by simp)
+    | cons t0 rest =>
+      refine ⟨d, t0, rest, rfl, rfl, ?_⟩
+      simp only at h
+      by_cases hs : sameDim d t0 = true
+      · exact hs
+      · simp [hs] at h
+
+/-- … so `Range(0, dim)` enumerates every leading index and `ScatterND(·, reduction="none")` (pinned by the pattern) returns
+`updates`, for every number of rows. -/
+theorem dynamic_scatter_sound {ρ : Type} (tdata upd : List ρ) (h : tdata.length = upd.length) :
+    specScatterRows (fun _ u => u) tdata (List.range upd.length) upd = upd :=
+  OV.Lemmas.C05Shape.scatter_full_range tdata upd h
+
+/-- **`slice_split`** (after commit 462c374): when `check` passes the last dim is even and the opset is ≥ 18 … -/
+theorem slice_split_check_even (p : SliceSplit) (h : p.check = true) :
+    (∃ d, p.xShape.bind List.getLast? = some (.known d) ∧ d % 2 = 0) ∧ p.opsetGe18 = true := by
+  unfold SliceSplit.check at h
+  simp only [Bool.and_eq_true] at h
+  refine ⟨?_, h.2⟩
+  have h2 := h.1.2
+  split at h2
+  · rename_i d hd
+    exact ⟨d, hd, by simpa using h2⟩
+  · exact absurd h2 (by simp)
+
+/-- … and for an even `d` the two matched slices `[0, d/2)`, `[d/2, d)` have exactly the chunk sizes of `Split(num_outputs=2)`. -/
+theorem slice_split_sound (d : Nat) (h : d % 2 = 0) : sliceHalves d = specSplit2 d := by
+  unfold sliceHalves specSplit2; ext <;> simp <;> omega
+
+/-- Documentation of findings C05-N10 / C05-N9 (fixed): for every odd `d` the sizes differ; the pre-fix check passed for
+`d = 5`, the rule now refuses (and refuses below opset 18). -/
+theorem slice_split_prefix_refuted :
+    (∀ d : Nat, d % 2 = 1 → sliceHalves d ≠ specSplit2 d) ∧
+    (SliceSplit.checkPrefix { xShape := some [.known 2, .known 5], axes0 := some [1], axes1 := some [1], begin0 := some [0], end0 := some [2], begin1 := some [2], end1 := some [5] }) = true ∧
+    (SliceSplit.check { xShape := some [.known 2, .known 5], axes0 := some [1], axes1 := some [1], begin0 := some [0], end0 := some [2], begin1 := some [2], end1 := some [5] }) = false ∧
+    (SliceSplit.check { xShape := some [.known 2, .known 4], axes0 := some [1], axes1 := some [1], begin0 := some [0], end0 := some [2], begin1 := some [2], end1 := some [4], opsetGe18 := false }) = false ∧
+    (SliceSplit.check { xShape := some [.known 2, .known 4], axes0 := some [1], axes1 := some [1], begin0 := some [0], end0 := some [2], begin1 := some [2], end1 := some [4] }) = true := by
+  refine ⟨?_, by decide, by decide, by decide, by decide⟩
+  intro d h
+  unfold sliceHalves specSplit2; intro hh
+  have := congrArg Prod.fst hh
+  simp at this; omega
+
+/-- **`two_reshapes_matmul_reshape` / `one_reshape_matmul_reshape` / `gemm_to_matmul_add`, shape arithmetic**
+(`check_if_not_need_reshape`): for operands of **all ranks** (1-D promotion on either side, batch broadcasting, either
+operand longer), when the function's predicted `broadcast_matmul_output_shape` is `out` — which `check` then requires to
+equal the constant `shape_c` — `MatMul(a, b)` on the *un-reshaped* inputs has exactly that shape.  Hypotheses the proof
+forces (both implied by a valid original model, both shown necessary below): the inner dims agree, and no aligned batch
+pair is (a: 1, b: 0). -/
+theorem matmul_reshape_shape_sound (a b out : List Nat) (h : matmulOutShape a b = some out)
+    (hinner : a.getLastD 0 = (if b.length == 1 then b.getLastD 0 else b.getD (b.length - 2) 0))
+    (hnz : ∀ p ∈ List.zip (a.take (a.length - 2)).reverse (b.take (b.length - 2)).reverse, ¬ (p.1 = 1 ∧ p.2 = 0)) :
+    specMatMulShape a b = some out :=
+  OV.Lemmas.C05Matmul.matmul_out_shape_sound a b out h hinner hnz
+
+/-- The rule's whole `check` ties `shape_c` to that prediction (static shapes only; symbolic dims are refused). -/
+theorem matmul_reshape_check_shape (p : MatmulReshape) (h : matmulReshapeCheck p = true) :
+    ∃ an bn out c, p.a.bind allKnown = some an ∧ p.b.bind allKnown = some bn ∧ matmulOutShape an bn = some out ∧
+      p.shapeC = some c ∧ c = out.map Int.ofNat := by
+  unfold matmulReshapeCheck at h
+  cases hc : p.shapeC with
+  | none => rw [hc] at h; exact absurd h (by simp)
+  | some c =>
+    rw [hc] at h
+    simp only at h
+    split at h
+    · exact absurd h (by simp)
+    · cases ha : p.a with
+      | none => rw [ha] at h; exact absurd h (by simp)
+      | some a =>
+        cases hb : p.b with
+        | none => rw [ha, hb] at h; exact absurd h (by simp)
+        | some b =>
+          rw [ha, hb] at h
+          simp only at h
+          cases han : allKnown a with
+          | none => rw [han] at h; exact absurd h (by simp)
+          | some an =>
+            cases hbn : allKnown b with
+            | none => rw [han, hbn] at h; exact absurd h (by simp)
+            | some bn =>
+              rw [han, hbn] at h
+              simp only at h
+              cases ho : matmulOutShape an bn with
+              | none => rw [ho] at h; exact absurd h (by simp)
+              | some out =>
+                rw [ho] at h
+                simp only [beq_iff_eq] at h
+                exact ⟨an, bn, out, c, by simp [han], by simp [hbn], ho, rfl, h⟩
+
+/-- Both hypotheses of `matmul_reshape_shape_sound` are necessary (the guard tests inner dims and batch dims with the
+same one-sided `da ∈ {1, db}` and takes `max` of a batch pair). -/
+theorem matmul_reshape_shape_hyps_needed :
+    (matmulOutShape [2, 1] [5, 3] = some [2, 3] ∧ specMatMulShape [2, 1] [5, 3] = none) ∧
+    (matmulOutShape [1, 3, 4] [0, 4, 5] = some [1, 3, 5] ∧ specMatMulShape [1, 3, 4] [0, 4, 5] = some [0, 3, 5]) := by
+  decide
+
+/-- **`gemm_to_matmul_add`** (after commit ae98696): when `check` passes, `alpha = beta = 1`, no operand is transposed, and the
+shape test holds … -/
+theorem gemm_to_matmul_add_check (p : GemmToMatmul) (h : gemmToMatmulCheck p = true) :
+    p.alphaAttr = some 1 ∧ p.betaAttr = some 1 ∧ p.transA = false ∧ p.transB = false ∧ matmulReshapeCheck p.core = true := by
+  unfold gemmToMatmulCheck gemmToMatmulHyp at h
+  simp only [Bool.and_eq_true, beq_iff_eq, Bool.not_eq_true'] at h
+  exact ⟨h.1.1.1, h.1.1.2, h.1.2.1, h.1.2.2, h.2⟩
+
+/-- … and then `Gemm(A, B, C; alpha=1, beta=1) = MatMul(A, B) + C` entrywise, for every inner dimension over any commutative ring. -/
+theorem gemm_to_matmul_add_sound {α : Type} [CommRing α] (K : Nat) (A B C : Nat → Nat → α) (i j : Nat) :
+    gemm K false false 1 1 A B C i j = mm K A B i j + C i j := by
+  unfold mm gemm; simp
+
+/-- Documentation of finding C05-N5 (fixed): the pre-fix check passed with `transB = 1`, and `Gemm(A, B, C; transB) ≠ MatMul(A, B) + C`
+already for `A = B = [[1,2],[3,4]]`, `C = 0` at entry (0,0) (`5` vs `7`); the rule now refuses. -/
+theorem gemm_to_matmul_add_prefix_refuted :
+    gemmToMatmulCheckPrefix { core := { a := some [.known 2, .known 2], b := some [.known 2, .known 2], shapeC := some [2, 2] }, alphaAttr := some 1, betaAttr := some 1, transB := true } = true ∧
+    gemmToMatmulCheck { core := { a := some [.known 2, .known 2], b := some [.known 2, .known 2], shapeC := some [2, 2] }, alphaAttr := some 1, betaAttr := some 1, transB := true } = false ∧
+    gemm 2 false true (1 : Int) 1 (fun i j => 2 * i + j + 1) (fun i j => 2 * i + j + 1) (fun _ _ => 0) 0 0 ≠
+      mm 2 (fun i j => (2 * i + j + 1 : Int)) (fun i j => 2 * i + j + 1) 0 0 + 0 := by
+  refine ⟨by decide +kernel, by decide +kernel, ?_⟩
+  unfold gemm mm
+  simp [Finset.sum_range_succ]
+
+end More
 
 /-! ## Non-vacuity: concrete instances satisfying the hypotheses of the theorems above -/
 section NonVacuity
@@ -678,8 +1028,8 @@ example : materializeReshapeRun false (some [.sym "N", .known 4]) = .fire { shap
 example : collapseSliceRun (some [.known 2, .known 5]) (.one 0) (.one 7) (.one (-1)) (.one 1) = .fire () ∧
     pyIndex [Dim.known 2, Dim.known 5] (-1) = some (.known 5) := by decide
 -- static scatter
-example : staticScatterRun (some [.known 2, .known 3]) (some [.known 2, .known 3]) (some [[0], [1]]) = .fire () ∧
-    staticScatterRun (some [.sym "N", .known 3]) (some [.sym "N", .known 3]) (some [[0], [1]]) = .nofire := by decide
+example : staticScatterRun true (some [.known 2, .known 3]) (some [.known 2, .known 3]) (some [[0], [1]]) = .fire () ∧
+    staticScatterRun true (some [.sym "N", .known 3]) (some [.sym "N", .known 3]) (some [[0], [1]]) = .nofire := by decide
 -- pads: Pad [0,0,1,0,0,2] into Conv pads [1,0]
 example : padConvRun { xRank := some 3, mode := none, pads := .const [0, 0, 1, 0, 0, 2], constantValue := .absent, axes := .absent, autoPad := "NOTSET", convPads := some [1, 0] } = .fire [2, 2] := by decide
 -- gemm: C of shape [4] fits (2,4)
